@@ -18,11 +18,12 @@ META = {
         "that creates or retires a worker is taken under the pool lock on inputs read under that lock, all of whose writers "
         "hold it; C10.6 no blocking primitive is called while the pool lock is held; C10.7 the only non-stop retirement is "
         "guarded by `threads > min`, and every exit of the worker (normal, retirement, sentinel, exceptional) decrements the "
-        "thread counter exactly once."),
+        "thread counter exactly once. C10.8 the handler that contains a failing task in the worker only hands the user-supplied objects (exception, callable) on - logger arguments, getattr with a default - and never evaluates them (attribute load, eager formatting, call): otherwise a second exception escapes the handler and the worker dies, leaving fewer than min_threads workers."),
     "does_not_decide": "the instantaneous bounds and the progress of dependent tasks over all interleavings.",
     "rules": {"C10.1": "who-may-create + dominance with normalised comparisons", "C10.2": "shape interpreter over argument classes",
               "C10.3": "dominance + lockset", "C10.4": "shape interpreter with a stubbed __start_thread", "C10.5": "E5 snapshot rule (reads, writers, locksets)",
-              "C10.6": "E5 blocking-call table under lockset", "C10.7": "exit-complete event-count exploration"},
+              "C10.6": "E5 blocking-call table under lockset", "C10.7": "exit-complete event-count exploration",
+              "C10.8": "syntax-directed use classification of the containment handler"},
     "assumptions": ["queue.Queue.put/get are the only writers of the queue size; Event.set/clear of the flag"],
 }
 
@@ -512,3 +513,8 @@ def check(ck):
                    "a waiting task is left without a worker" % [x for x in gs if x], q.loc(frun, rn))
         ck.require(("self._min_threads", "<", "self.__nb_threads") in gs, "C10.7", "%s: retirement guarded by `threads > min`" % q.fn(frun),
                    "nb_threads > min_threads", "an idle worker can retire although no more than min_threads workers exist (guards %s)" % [x for x in gs if x], q.loc(frun, rn))
+
+    # ---- C10.8 the worker's containment handler cannot raise on user objects ---------------------------------------------
+    from rules import common
+    common.check_inert_handlers(ck, "C10.8", scopes=("worker",))
+    ck.floor("C10.8", 2)
